@@ -3,6 +3,7 @@ mod dispatch;
 mod gj;
 mod ops_c17;
 mod ops_centroid;
+mod ops_distance;
 mod ops_c18;
 mod ops_poly;
 mod ops_relate;
@@ -69,6 +70,7 @@ fn main() {
 fn dispatch_case(cx: &mut Ctx, n: u64, case: &Value) {
     match case["op"].as_str().unwrap_or("") {
         "centroid" => ops_centroid::centroid_case(cx, n, case),
+        "distance" => ops_distance::distance_case(cx, n, case),
         "poly" => ops_poly::poly_case(cx, n, case),
         "relate" => ops_relate::relate_case(cx, n, case),
         "coordpos" => ops_relate::coordpos_case(cx, n, case),
